@@ -51,15 +51,17 @@ type fdef struct {
 }
 
 type ftree struct {
-	label string
-	set   map[string]*fdef
-	steps []string
+	label    string
+	ownOrder bool
+	set      map[string]*fdef
+	steps    []string
 }
 
 type forest struct {
 	srcs  []*ftree // source configurations, only ever copied from
 	trees []*ftree // every tree is read in turn, with the other ones as Env configurations (in this order)
 	ress  []map[string]string
+	ownE  []bool    // the resolver answers unknown names with an error of its own, not ErrMissing
 	plan  [][]fstep // per tree
 	nextO int
 
@@ -88,21 +90,39 @@ func fLower(i int) []string {
 	return out
 }
 
-func (f *forest) newDef(r *rand.Rand, i int, tag string, wide bool) *fdef {
+// fLowerIn: like fLower, for a tree that ranks the names holding expressions
+// in an order of its own (rank[name index] = position): the same two names
+// may then refer to each other in opposite directions in two trees, which is
+// not a cycle - a name denotes the setting of the tree the referring
+// expression lives in.
+func fLowerIn(rank []int, i int) []string {
+	if rank == nil {
+		return fLower(i)
+	}
+	out := append([]string{}, fNames[:fPlain]...)
+	for j := fPlain; j < len(fNames); j++ {
+		if rank[j] < rank[i] {
+			out = append(out, fNames[j], fNames[j], fNames[j])
+		}
+	}
+	return out
+}
+
+func (f *forest) newDef(r *rand.Rand, i int, tag string, wide bool, rank []int) *fdef {
 	var ex *model.Ex
 	if i < fPlain {
 		ex = model.Lit(tagName(tag, fNames[i]))
 	} else if wide {
 		// a text with several expansions: several names are resolved within
 		// one read
-		g := model.ExGen{Names: fLower(i), Lits: fLits, NameExprs: true}
+		g := model.ExGen{Names: fLowerIn(rank, i), Lits: fLits, NameExprs: true}
 		c := &model.Ex{Kind: model.XCat}
 		for j, n := 0, 2+r.Intn(3); j < n; j++ {
 			c.Kids = append(c.Kids, g.Gen(r, 1))
 		}
 		ex = c.Normalize()
 	} else {
-		g := model.ExGen{Names: fLower(i), Lits: fLits, NameExprs: true}
+		g := model.ExGen{Names: fLowerIn(rank, i), Lits: fLits, NameExprs: true}
 		ex = g.Gen(r, 1+r.Intn(f.depth))
 		if !ex.HasVar() && r.Intn(2) == 0 {
 			ex = g.Gen(r, f.depth)
@@ -121,11 +141,11 @@ func genForest(r *rand.Rand, depth int) *forest {
 		set := map[string]*fdef{}
 		for j, c := 0, 1+r.Intn(2); j < c; j++ {
 			i := fPlain + r.Intn(len(fNames)-fPlain)
-			set[fNames[i]] = f.newDef(r, i, label, false)
+			set[fNames[i]] = f.newDef(r, i, label, false, nil)
 		}
 		for i := 0; i < fPlain; i++ {
 			if r.Intn(4) == 0 {
-				set[fNames[i]] = f.newDef(r, i, label, false)
+				set[fNames[i]] = f.newDef(r, i, label, false, nil)
 			}
 		}
 		f.srcs = append(f.srcs, &ftree{label: label, set: set})
@@ -134,6 +154,15 @@ func genForest(r *rand.Rand, depth int) *forest {
 	for t := 0; t < ntrees; t++ {
 		label := fmt.Sprintf("t%d", t)
 		tr := &ftree{label: label, set: map[string]*fdef{}}
+		// every third tree ranks the names in an order of its own
+		var rank []int
+		if r.Intn(3) == 0 {
+			rank = make([]int, len(fNames))
+			for j, p := range r.Perm(len(fNames) - fPlain) {
+				rank[fPlain+j] = p
+			}
+			tr.ownOrder = true
+		}
 		var plan []fstep
 		for j, c := 0, 1+r.Intn(5); j < c; j++ {
 			var st fstep
@@ -142,7 +171,7 @@ func genForest(r *rand.Rand, depth int) *forest {
 				own := map[string]*fdef{}
 				for i, n := range fNames {
 					if r.Intn(4) == 0 {
-						own[n] = f.newDef(r, i, label, false)
+						own[n] = f.newDef(r, i, label, false, rank)
 					}
 				}
 				st = fstep{kind: "own", own: own}
@@ -158,7 +187,7 @@ func genForest(r *rand.Rand, depth int) *forest {
 		own := map[string]*fdef{}
 		for j, c := 0, 1+r.Intn(2); j < c; j++ {
 			i := len(fNames) - 1 - r.Intn(4)
-			own[fNames[i]] = f.newDef(r, i, label, r.Intn(3) > 0)
+			own[fNames[i]] = f.newDef(r, i, label, r.Intn(3) > 0, rank)
 		}
 		at := r.Intn(len(plan) + 1)
 		plan = append(plan[:at], append([]fstep{{kind: "own", own: own}}, plan[at:]...)...)
@@ -191,6 +220,7 @@ func genForest(r *rand.Rand, depth int) *forest {
 			}
 		}
 		f.ress = append(f.ress, res)
+		f.ownE = append(f.ownE, r.Intn(2) == 0)
 	}
 	return f
 }
@@ -215,8 +245,9 @@ func (f *forest) describe() string {
 	}
 	for _, t := range f.trees {
 		fmt.Fprintf(&b, "%s built by [%s]; ", t.label, strings.Join(t.steps, ", "))
+		_ = t.ownOrder
 	}
-	fmt.Fprintf(&b, "resolvers=%v", f.ress)
+	fmt.Fprintf(&b, "resolvers=%v (unknown names answered with an error of their own: %v)", f.ress, f.ownE)
 	return b.String()
 }
 
@@ -266,11 +297,14 @@ func (f *forest) build() (*fbuilt, error) {
 		trees = append(trees, c)
 	}
 	b := &fbuilt{trees: trees}
-	for _, res := range f.ress {
-		res := res
+	for i, res := range f.ress {
+		i, res := i, res
 		b.res = append(b.res, ucfg.Resolve(func(n string) (string, parse.Config, error) {
 			if v, ok := res[n]; ok {
 				return v, parse.NoopConfig, nil
+			}
+			if f.ownE[i] {
+				return "", parse.NoopConfig, fmt.Errorf("resolver %d has no variable %q", i, n)
 			}
 			return "", parse.NoopConfig, ucfg.ErrMissing
 		}))
@@ -302,6 +336,10 @@ type fres struct {
 }
 
 type ftrace struct {
+	steps    int
+	stack    []fframe // settings being evaluated
+	cyclic   bool     // a setting was entered again while being evaluated: C08's business, not compared
+	sameName bool     // a name was being evaluated in two different trees at the same time (no cycle)
 	// trees in which each definition (by origin) holding a ${} was evaluated
 	where     map[int]map[int]bool
 	envExpr   bool // an expression living in an Env configuration was evaluated
@@ -309,6 +347,28 @@ type ftrace struct {
 	fromRes   bool
 	fromOther bool // a name found in another tree than the one the expression lives in
 }
+
+type fframe struct {
+	tree int
+	name string
+}
+
+// enter pushes the setting name of tree t; false if it is being evaluated already.
+func (tr *ftrace) enter(t int, name string) bool {
+	for _, fr := range tr.stack {
+		if fr.name == name {
+			if fr.tree == t {
+				tr.cyclic = true
+				return false
+			}
+			tr.sameName = true
+		}
+	}
+	tr.stack = append(tr.stack, fframe{t, name})
+	return true
+}
+
+func (tr *ftrace) leave() { tr.stack = tr.stack[:len(tr.stack)-1] }
 
 func (tr *ftrace) multiTree() bool {
 	for _, ts := range tr.where {
@@ -343,6 +403,10 @@ func (f *forest) fromResolvers(name string) (string, bool) {
 }
 
 func (f *forest) ref(t int, name string, tr *ftrace) fres {
+	if tr.steps++; tr.steps > 20000 {
+		tr.cyclic = true // too entangled to be judged here
+		return fres{isErr: true, msg: "budget"}
+	}
 	if j, d := f.find(t, name); d != nil {
 		if j != t {
 			tr.fromOther = true
@@ -350,7 +414,18 @@ func (f *forest) ref(t int, name string, tr *ftrace) fres {
 		if j != f.reading {
 			tr.fromEnv = true
 		}
+		if !tr.enter(j, name) {
+			return fres{isErr: true, msg: "cyclic"}
+		}
+		defer tr.leave()
 		return f.evalDef(j, d, tr)
+	}
+	// no tree holds the name: it denotes no setting, but it is a name being
+	// resolved all the same
+	for _, fr := range tr.stack {
+		if fr.name == name {
+			tr.sameName = true
+		}
 	}
 	if v, ok := f.fromResolvers(name); ok {
 		tr.fromRes = true
@@ -359,8 +434,13 @@ func (f *forest) ref(t int, name string, tr *ftrace) fres {
 	return fres{isErr: true, msg: "missing"}
 }
 
-func (f *forest) exists(t int, name string) bool {
-	if _, d := f.find(t, name); d != nil {
+func (f *forest) exists(t int, name string, tr *ftrace) bool {
+	if j, d := f.find(t, name); d != nil {
+		// only asked for, not evaluated - but asking for a setting that is
+		// being evaluated is a re-entry all the same
+		if tr.enter(j, name) {
+			tr.leave()
+		}
 		return true
 	}
 	_, ok := f.fromResolvers(name)
@@ -423,7 +503,7 @@ func (f *forest) eval(t int, e *model.Ex, tr *ftrace) fres {
 		}
 		return f.eval(t, e.Rhs, tr)
 	case model.XAlt:
-		if !named || !f.exists(t, n.s) {
+		if !named || !f.exists(t, n.s, tr) {
 			return fres{}
 		}
 		return f.eval(t, e.Rhs, tr)
@@ -484,8 +564,18 @@ func readTree(res *harness.R, f *forest, b *fbuilt, desc string, verbose bool) b
 	for _, k := range keys {
 		d := root.set[k]
 		tr := &ftrace{where: map[int]map[int]bool{}}
+		tr.enter(f.reading, k)
 		want := f.evalDef(f.reading, d, tr)
+		all.stack = nil
+		all.enter(f.reading, k)
 		f.evalDef(f.reading, d, all)
+		if tr.cyclic {
+			// a setting is entered again while it is being evaluated: cycles
+			// are C08's business
+			res.Ev("forest_reads_not_compared_model_meets_a_cycle", 1)
+			allOK = false
+			continue
+		}
 		wants[k] = want
 		if want.isErr {
 			allOK = false
@@ -502,6 +592,9 @@ func readTree(res *harness.R, f *forest, b *fbuilt, desc string, verbose bool) b
 		}
 		if tr.envExpr {
 			res.Ev("forest_reads_evaluating_an_expression_living_in_an_env", 1)
+		}
+		if tr.sameName {
+			res.Ev("forest_reads_with_one_name_being_evaluated_in_two_trees_at_once", 1)
 		}
 		if tr.fromRes {
 			res.Ev("forest_reads_answered_by_a_resolver", 1)
@@ -531,7 +624,7 @@ func readTree(res *harness.R, f *forest, b *fbuilt, desc string, verbose bool) b
 		res.Ev("forest_whole_tree_unpacked_evaluating_one_copied_expression_in_several_trees", 1)
 	}
 	if err != nil {
-		res.Violate("resolvable-reference-fails", "Unpack of the whole tree failed with %v, the model evaluates every setting; %s", err, desc)
+		res.Violate(sameNameSig(all, err, "resolvable-reference-fails"), "Unpack of the whole tree failed with %v, the model evaluates every setting; %s", err, desc)
 		return false
 	}
 	for _, k := range keys {
@@ -543,7 +636,7 @@ func readTree(res *harness.R, f *forest, b *fbuilt, desc string, verbose bool) b
 		want := wants[k]
 		d := root.set[k]
 		if !sameValue(got, want.s, d) {
-			res.Violate(forestSig(nil, all.multiTree(), fmt.Sprint(got), want.s, true), "Unpack of the whole tree: %q = %#v, model %q; %s", k, got, want.s, desc)
+			res.Violate(sameNameSig(all, nil, forestSig(nil, all.multiTree(), fmt.Sprint(got), want.s, true)), "Unpack of the whole tree: %q = %#v, model %q; %s", k, got, want.s, desc)
 			return false
 		}
 	}
@@ -560,6 +653,19 @@ func sameValue(got interface{}, want string, d *fdef) bool {
 		return false
 	}
 	return model.CanonIfc(got) == model.CanonIfc(vx.ExpectText(want))
+}
+
+// sameNameSig: deviations of reads during which one name was being resolved
+// in two places at once (two trees, or a tree and nowhere) - no cycle, a name
+// denotes the setting of the tree the referring expression lives in.
+func sameNameSig(tr *ftrace, err error, sig string) string {
+	switch {
+	case tr == nil || !tr.sameName || strings.HasPrefix(sig, "escape-"):
+		return sig
+	case err != nil && vx.IsCyclicErr(err):
+		return "name-being-evaluated-in-another-tree-reported-as-cyclic"
+	}
+	return "name-being-evaluated-in-another-tree-disturbs-expansion"
 }
 
 func forestSig(tr *ftrace, multi bool, got, want string, whole bool) string {
@@ -627,11 +733,11 @@ func compareForest(res *harness.R, f *forest, b *fbuilt, k string, d *fdef, want
 				if tr.multiTree() {
 					sig = "expression-copied-into-several-trees-not-expanded-per-tree"
 				}
-				res.Violate(sig, "%s of %q returned %#v without error, model says %s (%s); %s", rd.how, k, rd.val, cls, want.msg, desc)
+				res.Violate(sameNameSig(tr, nil, sig), "%s of %q returned %#v without error, model says %s (%s); %s", rd.how, k, rd.val, cls, want.msg, desc)
 				return false
 			}
 			if cls == "error-operator" && !vx.MentionsMsg(rd.err, want.msg) {
-				res.Violate("error-operator-message-lost", "%s of %q failed with %v, expected the message %q; %s", rd.how, k, rd.err, want.msg, desc)
+				res.Violate(sameNameSig(tr, rd.err, "error-operator-message-lost"), "%s of %q failed with %v, expected the message %q; %s", rd.how, k, rd.err, want.msg, desc)
 				return false
 			}
 			continue
@@ -641,11 +747,12 @@ func compareForest(res *harness.R, f *forest, b *fbuilt, k string, d *fdef, want
 			if tr.multiTree() {
 				sig = "expression-copied-into-several-trees-not-expanded-per-tree"
 			}
+			sig = sameNameSig(tr, rd.err, sig)
 			res.Violate(sig, "%s of %q failed with %v, model says %q; %s", rd.how, k, rd.err, want.s, desc)
 			return false
 		}
 		if !sameValue(rd.val, want.s, d) {
-			res.Violate(forestSig(tr, tr.multiTree(), fmt.Sprint(rd.val), want.s, false), "%s of %q = %#v, model %q; %s", rd.how, k, rd.val, want.s, desc)
+			res.Violate(sameNameSig(tr, nil, forestSig(tr, tr.multiTree(), fmt.Sprint(rd.val), want.s, false)), "%s of %q = %#v, model %q; %s", rd.how, k, rd.val, want.s, desc)
 			return false
 		}
 	}
